@@ -37,6 +37,7 @@ func main() {
 		{"Compile.lean", extractCompile},
 		{"Pool.lean", extractPool},
 		{"Locks.lean", extractLocks},
+		{"Math.lean", extractMath},
 	}
 	for _, g := range gens {
 		s, err := g.fn(*repo)
